@@ -1,5 +1,6 @@
 import ALock.OnceCell
 import ALock.Drv.Util
+import ALock.AtomTraceMore
 
 /-! Line protocol for the OnceCell model. -/
 
@@ -60,14 +61,16 @@ def exec (s : Sys) (toks : List String) : Sys × String :=
     match num? b with
     | some bound =>
       let r := settleLoop s bound 0
-      (r.1, obs s!"settled {r.2}" (newWakes s.log r.1.log) (snapshot r.1))
+      (r.1, obs s!"settled {r.2}" (newWakes s.log r.1.log)
+        (snapshot r.1 ++ " at=" ++ fmtAtoms (settleAtoms s bound)))
     | none => (s, "bad-op")
   | _ =>
     match parseOp toks with
     | some op =>
       let r := step s op
       if r.2 == .bad then (s, "bad-op")
-      else (r.1, obs (outStr r.2) (newWakes s.log r.1.log) (snapshot r.1))
+      else (r.1, obs (outStr r.2) (newWakes s.log r.1.log)
+        (snapshot r.1 ++ " at=" ++ fmtAtoms (stepAtoms s op)))
     | none => (s, "bad-op")
 
 def create : List String → Option Sys
